@@ -130,6 +130,7 @@ type Machine struct {
 	timers    []*chanV
 	ptrIDs    map[*value]int
 	inInit    int
+	pools     map[*value][]value
 	overrides map[string]value
 	racyScope string
 	randInts  []*Term
@@ -690,6 +691,7 @@ func (m *Machine) resetPath() {
 	m.timers = nil
 	m.ptrIDs = map[*value]int{}
 	m.inInit = 0
+	m.pools = map[*value][]value{}
 	m.overrides = map[string]value{}
 	m.racyScope = ""
 	m.randInts = nil
